@@ -227,6 +227,25 @@ pub fn forgot_action(pl: u8, deep: bool) -> Tree {
     Tree::P { pl, info: "x".into(), kids: vec![PKid { a: "a".into(), t: below(1) }, PKid { a: "b".into(), t: below(2) }] }
 }
 
+/// many infosets for one player: chance deals one of `n` cards to player one (one infoset per card: fold or play), player
+/// two (who does not see the card) calls or folds
+pub fn cards(n: usize) -> Tree {
+    let kids = (0..n)
+        .map(|j| {
+            let v = (j as i64 * 7) % 11 - 5;
+            let reply = player(2, "q", vec![("call", term(v)), ("fold", term(1))]);
+            (1, player(1, &format!("c{j}"), vec![("fold", term(-1)), ("play", reply)]))
+        })
+        .collect();
+    chance("deal", kids)
+}
+
+/// games whose size crosses thresholds an implementation might special-case (64 / 1024 infosets of one player, counts
+/// that are not multiples of the thread count or of 32)
+pub fn large() -> Vec<(String, Tree)> {
+    vec![("chain130".to_string(), chain(130)), ("cards67".to_string(), cards(67)), ("cards1025".to_string(), cards(1025))]
+}
+
 pub fn all() -> Vec<(String, Tree)> {
     let mut v = vec![
         ("pennies".to_string(), pennies()),
